@@ -122,15 +122,20 @@ func (l *Lock) Unlock(key string) (bool, error) {
 	default:
 	}
 
-	var err error
-	removed := l.removeKey(key)
-	if !removed {
-		err = ErrInvalidLockKey
-	} else {
-		// Attempt to release the lock
-		l.sw.Release(1)
+	// Remove the key and release the capacity in one critical section. Otherwise a second
+	// Unlock with the same key can fail (and return) while the first has removed the key but
+	// not yet released the capacity, leaving a window in which the lock is neither held by
+	// anyone nor available.
+	l.keyMtx.Lock()
+	defer l.keyMtx.Unlock()
+
+	at := slices.Index(l.keys, key)
+	if at < 0 {
+		return false, ErrInvalidLockKey
 	}
-	return removed, err
+	l.keys = slices.Delete(l.keys, at, at+1)
+	l.sw.Release(1)
+	return true, nil
 }
 
 // addKey adds a key to the lock's keys.
@@ -138,19 +143,4 @@ func (l *Lock) addKey(key string) {
 	l.keyMtx.Lock()
 	defer l.keyMtx.Unlock()
 	l.keys = append(l.keys, key)
-}
-
-// removeKey removes a key from the lock's keys. It returns false if the key
-// does not exist.
-func (l *Lock) removeKey(key string) bool {
-	l.keyMtx.Lock()
-	defer l.keyMtx.Unlock()
-
-	at := slices.Index(l.keys, key)
-	if at < 0 {
-		return false
-	}
-
-	l.keys = slices.Delete(l.keys, at, at+1)
-	return true
 }
